@@ -37,13 +37,17 @@ def gen_session(rng, wills=False, flow=False):
         # hop: what the broker sends on must start with DUP=0 (seed C03-4)
         return " d=1" if q and rng.random() < 0.2 else ""
     def acks(name, full=None):
-        mode = full if full is not None else rng.choice(["all", "all", "none", "first", "rec-only"])
+        mode = full if full is not None else rng.choice(["all", "all", "none", "first", "rec-only", "rec-fail"])
         if mode == "all":
             ops.extend([f"ack {name} puback all", f"ack {name} pubrec all", f"ack {name} pubcomp all"])
         elif mode == "first":
             ops.extend([f"ack {name} puback k=0", f"ack {name} pubrec k=0"])
         elif mode == "rec-only":
             ops.append(f"ack {name} pubrec all")
+        elif mode == "rec-fail":
+            # a v5 subscriber refuses a QoS 2 message: PUBREC with a failing reason code ends that delivery (no PUBREL follows, the
+            # packet id is free again); a v3.1.1 client has no reason codes — the broker reads the packet as a plain PUBREC
+            ops.append(f"ack {name} pubrec k=0 code={rng.choice([128, 131, 135, 144, 145, 151, 153])}")
     connect()
     for _ in range(rng.randint(4, 14)):
         r = rng.random()
